@@ -303,6 +303,21 @@ func C03(c *Ctx, r *report.Run) error {
 					r.Case(cellBase, "placement_incompatible", true)
 				}
 			}
+			// every URL-bound field carries a distinctive non-default value in the probes: a field one client puts in the URL must travel in the other's request too
+			for _, pair := range [][2]string{{"go-client", "ts-client"}, {"ts-client", "go-client"}} {
+				a, b := obs[pair[0]], obs[pair[1]]
+				var lost []string
+				for f, loc := range a.Place {
+					if _, ok := b.Place[f]; !ok && loc != "body" { // body members left empty by a probe may be spelled out or omitted
+						lost = append(lost, f+" ("+loc+")")
+					}
+				}
+				sort.Strings(lost)
+				if len(lost) > 0 {
+					r.Violate(cellBase+"#placement:absent:"+pair[1], "placement_incompatible(go-client~ts-client)", fmt.Sprintf("the %s sends %v, the %s sends these fields nowhere", pair[0], lost, pair[1]), replay)
+					r.Case(cellBase, "placement_incompatible", true)
+				}
+			}
 		}
 		if oa := obs["openapi"]; oa.Known {
 			for cname, co := range map[string]routeObs{"go-client": gc, "ts-client": tc} {
